@@ -19,7 +19,7 @@ for id in "$@"; do
 import json,sys
 r=json.load(open('$f'))
 print('   shrunk tape', len(r['tape'] or []), 'of', r['unshrunk_tape_len'], 'replay_exact', r['replay_exact'])
-for l in r['scenario'][:12]: print('   |', l[:200])
+for l in (r['scenario'] or [])[:12]: print('   |', l[:200])
 print('   detail:', r['violation']['detail'][:400])
 "
   fi
